@@ -188,6 +188,49 @@ def _scan_sig(lp: ast.For) -> str:
     return "+".join(sorted({a.attr for a in ast.walk(lp.iter) if isinstance(a, ast.Attribute)})) or "?"
 
 
+def stale_flag_rule(A: Analysis, col: Collector, rule: str, fns: list[FuncInfo]):
+    """per-iteration flags: a local assigned constant booleans that is read inside a loop
+    must be (re)assigned on every path of the same iteration before it is read, otherwise
+    the verdict on one element leaks into the following elements of the scan."""
+    for fn in fns:
+        loops = [n for n in walk_own(fn.node) if isinstance(n, (ast.For, ast.AsyncFor))]
+        if not loops:
+            continue
+        cfg = A.cfg(fn)
+        flags = {}
+        for n in walk_own(fn.node):
+            if isinstance(n, ast.Assign) and isinstance(n.value, ast.Constant) and isinstance(n.value.value, bool):
+                for t in n.targets:
+                    if isinstance(t, ast.Name):
+                        flags.setdefault(t.id, []).append(n)
+        for lp in loops:
+            heads = [n for n in cfg.nodes if n.kind == "loop" and n.stmt is lp]
+            for flag in sorted(flags):
+                # only flags that are written inside this loop are per-iteration flags
+                writers = {n.id for n in cfg.nodes if n.kind == "stmt" and isinstance(n.stmt, ast.Assign) and is_within(n.stmt, lp) and any(isinstance(t, ast.Name) and t.id == flag for t in n.stmt.targets)}
+                if not writers:
+                    continue
+                # accumulators (set once to True inside the loop, initialised False before it, read after it) are not flags of an iteration
+                readers = [n for n in cfg.nodes if n.stmt is not None and is_within(n.stmt, lp) and n.kind in ("test", "stmt", "return") and any(isinstance(x, ast.Name) and x.id == flag and isinstance(x.ctx, ast.Load) for e in n.exprs for x in [e] + list(walk_own(e)))]
+                for r in readers:
+                    seen, st, stale = set(), [r], False
+                    while st:
+                        n = st.pop()
+                        if n.id in seen:
+                            continue
+                        seen.add(n.id)
+                        if n is not r and n.id in writers:
+                            continue
+                        if n in heads:
+                            stale = True
+                            break
+                        st.extend(p for _, p in n.pred)
+                    if stale:
+                        col.fail(rule, fn.qualname, f"flag-carried-across-iterations:scan-of-{_scan_sig(lp)}", f"the flag `{flag}` read in `{norm(r.stmt.test if r.kind == 'test' else r.stmt, 50)}` is not re-assigned on every path of the iteration: once set for one element it stays set for the following elements of the scan, which are then classified like the first", A.loc(r.stmt))
+                    else:
+                        col.ok(rule, f"{fn.name}: flag `{flag}` is assigned on every path of an iteration before `{norm(r.stmt.test if r.kind == 'test' else r.stmt, 40)}` reads it", A.loc(r.stmt))
+
+
 def pop_lands_rule(A: Analysis, col: Collector, rule: str):
     fn = A.func(f"{NODEEXEC}.update_status")
     col.scope(fn.qualname)
@@ -231,38 +274,7 @@ def pop_lands_rule(A: Analysis, col: Collector, rule: str):
                 col.ok(rule, f"update_status: `{src}` -> `{dest}` under `{cond}`", A.loc(c))
             else:
                 col.fail(rule, fn.qualname, f"wrong-destination:{src}->{dest}:{cond.replace(' ', '')[:40]}", f"a job leaving `{src}` is recorded in `{dest}` under condition `{cond}`", A.loc(c))
-    # per-iteration flags: a local assigned constant booleans that is read inside a scan loop must
-    # be (re)assigned on every path of the same iteration before it is read, otherwise the verdict
-    # on one job leaks into the following jobs of the scan
-    cfg = A.cfg(fn)
-    flags = {}
-    for n in walk_own(fn.node):
-        if isinstance(n, ast.Assign) and isinstance(n.value, ast.Constant) and isinstance(n.value.value, bool):
-            for t in n.targets:
-                if isinstance(t, ast.Name):
-                    flags.setdefault(t.id, []).append(n)
-    for lp in [n for n in walk_own(fn.node) if isinstance(n, ast.For)]:
-        heads = [n for n in cfg.nodes if n.kind == "loop" and n.stmt is lp]
-        for flag in sorted(flags):
-            readers = [n for n in cfg.nodes if n.stmt is not None and is_within(n.stmt, lp) and n.kind in ("test", "stmt", "return") and any(isinstance(x, ast.Name) and x.id == flag and isinstance(x.ctx, ast.Load) for e in n.exprs for x in [e] + list(walk_own(e)))]
-            writers = {n.id for n in cfg.nodes if n.kind == "stmt" and isinstance(n.stmt, ast.Assign) and is_within(n.stmt, lp) and any(isinstance(t, ast.Name) and t.id == flag for t in n.stmt.targets)}
-            for r in readers:
-                seen, st, stale = set(), [r], False
-                while st:
-                    n = st.pop()
-                    if n.id in seen:
-                        continue
-                    seen.add(n.id)
-                    if n is not r and n.id in writers:
-                        continue
-                    if n in heads:
-                        stale = True
-                        break
-                    st.extend(p for _, p in n.pred)
-                if stale:
-                    col.fail(rule, fn.qualname, f"flag-carried-across-iterations:scan-of-{_scan_sig(lp)}", f"the flag `{flag}` read in `{norm(r.stmt.test if r.kind == 'test' else r.stmt, 50)}` is not re-assigned on every path of the iteration: once set for one job it stays set for the following jobs of the scan, which are then classified like the first", A.loc(r.stmt))
-                else:
-                    col.ok(rule, f"update_status: flag `{flag}` is assigned on every path of an iteration before `{norm(r.stmt.test if r.kind == 'test' else r.stmt, 40)}` reads it", A.loc(r.stmt))
+    stale_flag_rule(A, col, rule, [f for f in A.repo.all_functions() if f.module.name == 'pydra.engine.submitter'])
     # errored takes no part of 'done' of the node: NodeExecution.done == not (queued or blocked or running)
     nd = A.cls(NODEEXEC).find_method("done")
     rets = [n for n in walk_own(nd.node) if isinstance(n, ast.Return) and n.value is not None]
